@@ -1,9 +1,13 @@
 #!/bin/bash
-# applies every behaviour-preserving patch under seeded/benign to the repo (REPO, default /repo), runs the checks of the contracts it touches, reverts
+# applies every behaviour-preserving patch under seeded/benign to the repo (REPO, default /repo), runs the checks of the contracts it touches, reverts.
+# A patch that was re-based after a later fix: commit touched the same lines is kept next to the original (patch_on_<commit>.diff); the first one that applies is used.
 cd "$(dirname "$0")/.."
+REPO=${REPO:-/repo}
 POOL="C01 C02 C03 C04 C12 C13 C14 C16 C17 C19 C20"; FARM="C05 C06 C07 C08 C09 C10 C11 C14 C15 C18 C20"
 fail=0
-for b in B1 B2 B5 B6; do echo "== $b"; out=$(tools/benign_check.sh $PWD/seeded/benign/$b/patch.diff $POOL 2>&1 | grep -v WARN); echo "$out"; echo "$out" | grep -qE "rc=[^0]|VIOLATION|INCONCLUSIVE" && fail=1; done
-for b in B3 B7 B8; do echo "== $b"; out=$(tools/benign_check.sh $PWD/seeded/benign/$b/patch.diff $FARM 2>&1 | grep -v WARN); echo "$out"; echo "$out" | grep -qE "rc=[^0]|VIOLATION|INCONCLUSIVE" && fail=1; done
-echo "== B4"; out=$(tools/benign_check.sh $PWD/seeded/benign/B4/patch_on_99ae0ba.diff $FARM 2>&1 | grep -v WARN); echo "$out"; echo "$out" | grep -qE "rc=[^0]|VIOLATION|INCONCLUSIVE" && fail=1
+pick() { for f in $(ls -r $PWD/seeded/benign/$1/patch_on_*.diff 2>/dev/null) $PWD/seeded/benign/$1/patch.diff; do git -C $REPO apply --check $f 2>/dev/null && { echo $f; return; }; done; }
+run() { b=$1; shift; p=$(pick $b); echo "== $b ($(basename "${p:-none}"))"; if [ -z "$p" ]; then echo "no patch of $b applies to the current tree"; fail=1; return; fi
+  out=$(tools/benign_check.sh $p "$@" 2>&1 | grep -v WARN); echo "$out"; echo "$out" | grep -qE "rc=[^0]|VIOLATION|INCONCLUSIVE" && fail=1; }
+for b in B1 B2 B5 B6; do run $b $POOL; done
+for b in B3 B4 B7 B8; do run $b $FARM; done
 exit $fail
